@@ -3,7 +3,8 @@
 // Why the black box: vf::Runner::explore records a worker that died (sanitizer abort, libstdc++ assertion, signal) or hung
 // with the level-local case index as witness; that cannot be replayed as an operation history. Every worker therefore writes
 // "B <case index> <site> <history>" to its own file before an audited step and flips the B to E afterwards. After
-// R.explore() returned, records still starting with B belong to cases that never finished; recoverWitnesses() puts their
+// R.explore() returned, records still starting with B belong to cases that never finished (a worker's last E record is the
+// fall-back for a death right after the step); recoverWitnesses() puts their
 // history into the corresponding crash|... / hang|... violation (matched on case index and site).
 // (Running each step in a helper process was tried first: correct, but the ping-pong costs ~10 ms per transition on the
 // loaded machine.)
@@ -50,7 +51,7 @@ inline BlackBox& blackBox() { static BlackBox b; return b; }
 // call right after R.explore(space,...) returned (in the main process)
 inline void recoverWitnesses(vf::Runner& R, const std::string& space) {
   if (R.replay || bbDir().empty()) return;
-  struct Rec { std::string k, site, hist; };
+  struct Rec { std::string k, site, hist; bool open; };
   std::vector<Rec> recs;
   DIR* d = opendir(bbDir().c_str());
   if (d) {
@@ -59,9 +60,9 @@ inline void recoverWitnesses(vf::Runner& R, const std::string& space) {
       std::string p = bbDir() + "/" + n;
       FILE* f = fopen(p.c_str(), "r");
       if (f) { char* line = nullptr; size_t cap = 0; ssize_t len = getline(&line, &cap, f);
-        if (len > 2 && line[0] == 'B') { std::string L(line, (size_t)len); if (!L.empty() && L.back() == '\n') L.pop_back();
+        if (len > 2 && (line[0] == 'B' || line[0] == 'E')) { std::string L(line, (size_t)len); if (!L.empty() && L.back() == '\n') L.pop_back();
           std::vector<std::string> t; size_t s0 = 0; for (int q = 0; q < 3; ++q) { size_t tb = L.find('\t', s0); if (tb == std::string::npos) break; t.push_back(L.substr(s0, tb - s0)); s0 = tb + 1; } t.push_back(L.substr(s0));
-          if (t.size() == 4) recs.push_back({t[1], t[2], t[3]}); }
+          if (t.size() == 4) recs.push_back({t[1], t[2], t[3], line[0] == 'B'}); }
         free(line); fclose(f); }
       unlink(p.c_str());
     }
@@ -73,11 +74,15 @@ inline void recoverWitnesses(vf::Runner& R, const std::string& space) {
     if (!crash && !hang) continue;
     if (v.detail.find("[history recovered") != std::string::npos) continue;
     const Rec* best = nullptr;
-    for (int pass = 0; pass < 2 && !best; ++pass)
+    // pass 0: a step that never finished, same case index; pass 1: a finished step with the same case index (the worker died after
+    // the step, e.g. in a destructor); pass 2: an unfinished step at the same site (the re-run of a hanging case has no case index)
+    for (int pass = 0; pass < 3 && !best; ++pass)
       for (auto& r : recs) {
         bool siteOk = v.sig.find("|" + r.site + (crash ? "|" : "")) != std::string::npos;
         if (!siteOk) continue;
-        if (pass == 0 && r.k != v.witness) continue;
+        if (pass == 0 && (!r.open || r.k != v.witness)) continue;
+        if (pass == 1 && r.k != v.witness) continue;
+        if (pass == 2 && !r.open) continue;
         if (!best || r.hist.size() < best->hist.size()) best = &r;
       }
     if (best) { v.detail += " [history recovered from the harness black box; engine case index was " + v.witness + "]"; v.witness = best->hist; }
